@@ -1,0 +1,41 @@
+//go:build verif
+
+// Contracts for govc (/verif): C30 peer authentication binds identity, recipient, freshness and role. Comment-only file.
+
+package kernel
+
+//@ spec BE64(b []byte) mathint = b[0]*72057594037927936 + b[1]*281474976710656 + b[2]*1099511627776 + b[3]*4294967296 + b[4]*16777216 + b[5]*65536 + b[6]*256 + b[7]
+
+//@ -- the network identity of the peer whose public spend key has byte content `spend`:
+//@ -- Blake3(networkId || Sha3(spend || Public(DeterministicHashDerive(spend))))
+//@ spec PeerIdOf(spend mathint, net crypto.Hash) crypto.Hash =
+//@     crypto.Blake3Of(cat(seq(net), seq(crypto.Sha3Of(cat(spend, crypto.PublicOf(crypto.DeriveOf(spend)))))))
+
+//@ func (node *Node) AuthenticateAs
+//@   property C30
+//@   requires node != nil                              -- method receiver: the p2p layer's handle is the running node
+//@   -- callers pass int64(HandshakeTimeout/time.Second) == 10 (p2p/peer.go authenticateNeighbor) and 0 (p2p/handle.go
+//@   -- updateRemoteRelayerConsumers). Above 2^53 seconds float64(timeoutSec) rounds and the skew bound below is FALSE.
+//@   requires timeoutSec < 4503599627370496
+//@   ensures [layout] err == nil ==> result0 != nil && len(msg) == 137
+//@   ensures [recipient] err == nil ==> forall i int :: 0 <= i && i < 32 ==> msg[8 + i] == recipientId[i]
+//@   ensures [identity] err == nil ==> result0.PeerId == PeerIdOf(seq(msg[40:72]), node.networkId)
+//@   ensures [notself] err == nil ==> result0.PeerId != recipientId
+//@   ensures [signed] err == nil ==> crypto.SigOK(seq(msg[40:72]), seq(crypto.Blake3Of(seq(msg[0:73]))), seq(msg[73:137]))
+//@   ensures [role] err == nil ==> (result0.IsRelayer <==> msg[72] == 1)
+//@   ensures [fresh] err == nil && timeoutSec > 0 ==> clock.ReadLo() - timeoutSec <= BE64(msg) && BE64(msg) <= clock.ReadHi() + timeoutSec
+//@   ensures [token-ts] err == nil ==> result0.Timestamp == BE64(msg)
+//@   ensures [token-len] err == nil ==> len(result0.Data) == 137
+//@   ensures [token-data] err == nil ==> seq(result0.Data) == seq(msg)
+//@   ensures [token-fresh] err == nil ==> fresh(result0.Data)
+//@   ensures [reject] err != nil ==> result0 == nil
+
+//@ func (node *Node) BuildAuthenticationMessage
+//@   property C30
+//@   requires node != nil
+//@   ensures [len] len(result) == 137
+//@   ensures [ts] clock.ReadLo() >= 0 ==> clock.ReadLo() <= BE64(result) && BE64(result) <= clock.ReadHi()
+//@   ensures [recipient] forall i int :: 0 <= i && i < 32 ==> result[8 + i] == relayerId[i]
+//@   ensures [key] forall i int :: 0 <= i && i < 32 ==> result[40 + i] == node.Signer.PublicSpendKey[i]
+//@   ensures [role] result[72] == (node.isRelayer ? 1 : 0)
+//@   ensures [sig] seq(result[73:137]) == crypto.SignOf(seq(node.Signer.PrivateSpendKey), seq(crypto.Blake3Of(seq(result[0:73]))))
